@@ -46,6 +46,8 @@ def run(repo, rep):
     rep.rule('C09.N3', 'the transfer syntax returned is the first proposed-and-supported one of this context', 1)
     rep.rule('C09.N4', 'routing tables are written exactly on the accept path, keyed by the context id, with the returned '
              'syntax; the provider gets the same table; _loop serves a message only on a context it accepted', 2)
+    rep.rule('C09.N6', 'the routing / accepted-context tables are per-association objects: what one association accepted is '
+             'never served on another', 1)
     rep.rule('C09.N5', 'the reply repeats the request\'s AE titles (same-named fields) and application context item; user '
              'information is appended last', 1)
 
@@ -211,3 +213,10 @@ def run(repo, rep):
     rep.check(not pl and not p4b, 'C09.N4', 'asceprovider:AssociationAcceptor._loop:serve-accepted-only', lf.loc(),
               'messages are served only on accepted contexts, with the recorded (id, abstract syntax, transfer syntax)',
               '; '.join(sorted(set(pl + p4b))))
+
+    # ---------------------------------------------------------------- N6: the tables belong to this association
+    from .c20 import per_instance_problems
+    acc_cls = repo.cls('asceprovider', 'AssociationAcceptor')
+    p6 = per_instance_problems(repo, acc_cls)
+    rep.check(not p6, 'C09.N6', 'asceprovider:AssociationAcceptor:tables-per-association', acc_cls.loc(),
+              'routing / accepted-context tables are created per association', '; '.join(p6))
